@@ -113,4 +113,10 @@ theorem fact_C07_evm_ante_chain : Generated.anteChainEVM =
      "NewAnteDecVerifyEthAcc", "CanTransferDecorator", "NewAnteDecEthGasConsume", "NewAnteDecEthIncrementSenderSequence",
      "ante.AnteDecoratorGasWanted", "NewEthEmitEventDecorator"] := by decide
 
+/-- the one nonce comparison of the EVM ante chain: a message is refused iff its nonce DIFFERS from the signer's sequence as it
+    stands after the bumps of the messages before it (what `C07_accept_iff_nonce_eq_seq` is stated over); no other decorator
+    of the chain looks at a nonce -/
+theorem fact_C07_single_nonce_comparison :
+    Generated.evmAnteNonceConditions = ["AnteDecEthIncrementSenderSequence.AnteHandle: txData.GetNonce() != nonce"] := by decide
+
 end Nibiru.EvmTx
